@@ -173,3 +173,47 @@ impl Default for TreadMill {
         Self::new()
     }
 }
+
+/// Verification hooks (only with `--cfg mmtk_verif`): read-only projections of the treadmill state.
+/// All the operations of [`TreadMill`] are already `pub`; the harness reaches the type through
+/// `crate::verif::TreadMill`.
+#[cfg(mmtk_verif)]
+impl TreadMill {
+    /// The four sets in the order `[from_space, to_space, collect_nursery, alloc_nursery]`, each
+    /// as a vector of raw object addresses sorted ascending.
+    pub fn verif_sets(&self) -> [Vec<usize>; 4] {
+        let sync = self.sync.lock().unwrap();
+        let dump = |set: &HashSet<ObjectReference>| {
+            let mut v: Vec<usize> = set.iter().map(|o| o.to_raw_address().as_usize()).collect();
+            v.sort_unstable();
+            v
+        };
+        [
+            dump(&sync.from_space),
+            dump(&sync.to_space),
+            dump(&sync.collect_nursery),
+            dump(&sync.alloc_nursery),
+        ]
+    }
+
+    /// Run the crate-private `enumerate_objects` and return the visited objects (raw addresses,
+    /// in visiting order, duplicates preserved).
+    pub fn verif_enumerate(&self, all: bool) -> Vec<usize> {
+        struct Collect(Vec<usize>);
+        impl ObjectEnumerator for Collect {
+            fn visit_object(&mut self, object: ObjectReference) {
+                self.0.push(object.to_raw_address().as_usize());
+            }
+            fn visit_address_range(
+                &mut self,
+                _start: crate::util::Address,
+                _end: crate::util::Address,
+            ) {
+                unreachable!("the treadmill enumerates single objects only")
+            }
+        }
+        let mut e = Collect(vec![]);
+        self.enumerate_objects(&mut e, all);
+        e.0
+    }
+}
